@@ -341,7 +341,8 @@ int mod_deregister(m_mod_t **mod, bool from_user) {
              * Destroy context if it is not looping and
              * it has no more modules in it and is not a persistent ctx
              */
-            if (from_user && c->state == M_CTX_IDLE && m_map_len(c->modules) == 0 && !(c->flags & M_CTX_PERSIST)) {
+            if (from_user && c->state == M_CTX_IDLE && m_map_len(c->modules) == 0 && !(c->flags & M_CTX_PERSIST)
+                && m_ctx() == c) { // module's on_stop() may already have released this ctx (and even registered a new one)
                 ret = m_ctx_deregister();
             }
         }
